@@ -277,7 +277,7 @@ impl Property for RefProp {
             return if batch == last || batch.starts_with("run-time error") {
                 Verdict::Pass
             } else {
-                fail("C13:session", format!("inputs {inputs:?}\n  as one program: {batch}\n  input by input into one interpreter: {last}"))
+                fail(case["sig"].as_str().unwrap_or("C13:session").to_string(), format!("inputs {inputs:?}\n  as one program: {batch}\n  input by input into one interpreter: {last}"))
             };
         }
         if case["kind"].as_str() == Some("scope") {
@@ -819,6 +819,49 @@ pub fn run(session: &Session, prop: &'static RefProp, rule: &str) -> i32 {
     if prop.id == "C13" && !session.stopped() {
         crate::props::soundness::run_cells(session);
     }
+    if prop.id == "C07" && !session.stopped() {
+        // callees that an earlier input left in the interpreter (REPL / embedding), called by a later
+        // input with arguments that have effects: each argument is evaluated exactly once, whatever
+        // the callee does with it - as in the same statements run as one program
+        let setup = "log := mut [int] []; note := (k: int) -> int { log = *log + [k]; return k; }; c := mut 0;";
+        let callees = [
+            "ignore := (x: any) {}; drop2 := (a: any, b: any) {};",
+            "ignore := (x: any) { return; }; drop2 := (a: any, b: any) { return; };",
+            "ignore := (x: any) -> any { return x; }; drop2 := (a: any, b: any) -> any { return b; };",
+            "ignore := (x: any) -> int { return 0; }; drop2 := (a: any, b: any) -> int { return 0; };",
+            "ignore := ((x: any) {}); drop2 := ((a: any, b: any) {});",
+            "z := (x: any) {}; ignore := z; y := (a: any, b: any) {}; drop2 := y;",
+            "m := mod { ignore := (x: any) {}; drop2 := (a: any, b: any) {}; }; ignore := m.ignore; drop2 := m.drop2;",
+        ];
+        let calls = [
+            "ignore(c += 1);",
+            "drop2(note(1), note(2));",
+            "ignore(note(3)); ignore(note(4));",
+            "ignore([note(1), note(2)]);",
+            "f := () { ignore(note(5)); drop2(c += 2, note(6)); }; f(); f();",
+            "ignore(ignore(note(1)));",
+            "[note(1), note(2)]~ @ ignore $];",
+            "r := ignore(note(7)); x := [r, drop2(note(8), c *= 3)];",
+            "for k in [1, 2]~ { ignore(note(k)); }",
+            "g := (h: (any) -> any) -> any { return h(note(9)); }; g(ignore);",
+            "ignore(struct{a := note(1), b := (c += 5)});",
+            "if true { ignore(note(1)); } else { ignore(note(2)); }",
+        ];
+        for callee in callees {
+            for call in calls {
+                for split in 0..3 {
+                    let inputs: Vec<String> = match split {
+                        0 => vec![format!("{setup} {callee}"), call.to_string(), "(*log, *c)".to_string()],
+                        1 => vec![setup.to_string(), callee.to_string(), format!("{call} (*log, *c)")],
+                        _ => vec![setup.to_string(), callee.to_string(), call.to_string(), call.to_string(), "(*log, *c)".to_string()],
+                    };
+                    if !session.stopped() {
+                        session.run_one(prop, &json!({"kind": "session", "sig": "C07:session-callee", "inputs": inputs}));
+                    }
+                }
+            }
+        }
+    }
     if prop.id == "C13" && !session.stopped() {
         // cells that live in the interpreter across several parsed inputs (REPL / embedding): reads and
         // writes of a later input go to the cell, not to what it held when the input was parsed
@@ -983,6 +1026,52 @@ pub fn run(session: &Session, prop: &'static RefProp, rule: &str) -> i32 {
             );
             if !session.stopped() {
                 session.run_one(prop, &json!({"kind": "probe", "sig": "C12:array-of-compounds", "text": text, "expected": "value (2, 20, 0, 1, 10)"}));
+            }
+        }
+    }
+    if matches!(prop.id, "C11" | "C12") && !session.stopped() {
+        // function values told apart by their types: a type arm, an if-set and a type filter take a
+        // function exactly when its type lies below the type asked for (parameters contravariant, the
+        // result covariant - also where the type asked for has the result `()`); the expected answers
+        // come from the harness's own relation over the types as written
+        let funs: [(&str, &str); 10] = [
+            ("() -> int { return 1; }", "()->int"),
+            ("() { }", "()->()"),
+            ("() -> string { return \"s\"; }", "()->string"),
+            ("(x: int) -> int { return x; }", "(int)->int"),
+            ("(x: int) { }", "(int)->()"),
+            ("(x: any) { }", "(any)->()"),
+            ("[1]~", "()->(bool, int)"),
+            ("() -> () -> int { return () -> int { return 1; }; }", "()->()->int"),
+            ("() -> any { return 1; }", "()->any"),
+            ("(x: int|string) -> int { return 1; }", "(int|string)->int"),
+        ];
+        let asked = ["()->()", "()->int", "(int)->()", "(int)->int", "()->any", "()->(bool, int)", "(int)->any", "(any)->()", "(string)->()", "()->()->()"];
+        let below = |f: &str, t: &str| match (crate::ty::Ty::parse(f), crate::ty::Ty::parse(t)) {
+            (Some(a), Some(b)) => Some(crate::ty::sub(&a, &b)),
+            _ => None,
+        };
+        let list: Vec<String> = funs.iter().enumerate().map(|(k, (f, _))| format!("({k}, {f})")).collect();
+        for t in asked {
+            let Some(taken) = funs.iter().map(|(_, ft)| below(ft, t)).collect::<Option<Vec<bool>>>() else { continue };
+            let indices: Vec<String> = taken.iter().enumerate().filter(|(_, b)| **b).map(|(k, _)| k.to_string()).collect();
+            let ones: Vec<&str> = taken.iter().map(|b| if *b { "1" } else { "0" }).collect();
+            if prop.id == "C11" {
+                let text = format!("g := (fs: [any]) -> any {{ return fs~ ? (int, {t}) @ (p: (int, {t})) -> int {{ return p.0; }} $]; }}; g([{}])", list.join(", "));
+                let expected = if indices.is_empty() { "value []".to_string() } else { format!("value [{}]", indices.join(", ")) };
+                session.run_one(prop, &json!({"kind": "probe", "sig": "C11:filter-function-types", "text": text, "expected": expected}));
+                let text = format!("g := (fs: [any]) -> any {{ a := fs~ ? (int, any); b := a @ (p: (int, any)) -> any {{ return p.1; }}; c := b ? {t}; return c @ (f: {t}) -> int {{ return 1; }} $+; }}; g([{}])", list.join(", "));
+                session.run_one(prop, &json!({"kind": "probe", "sig": "C11:filter-function-types", "text": text, "expected": format!("value {}", indices.len())}));
+            } else {
+                let text = format!("g := (f: any) -> int {{ return match f {{ p: {t} => 1, => 0, }}; }}; h := (f: any) -> int {{ return if p: {t} = f {{ 1 }} else {{ 0 }}; }}; fs := [{}]; (fs~ @ (p: (int, any)) -> int {{ return g(p.1); }} $], fs~ @ (p: (int, any)) -> int {{ return h(p.1); }} $])", list.join(", "));
+                session.run_one(prop, &json!({"kind": "probe", "sig": "C12:dispatch-function-types", "text": text, "expected": format!("value ([{0}], [{0}])", ones.join(", "))}));
+                // two type arms: the first that takes the function is chosen
+                for u in asked {
+                    let Some(second) = funs.iter().map(|(_, ft)| below(ft, u)).collect::<Option<Vec<bool>>>() else { continue };
+                    let want: Vec<&str> = taken.iter().zip(&second).map(|(a, b)| if *a { "1" } else if *b { "2" } else { "0" }).collect();
+                    let text = format!("g := (f: any) -> int {{ return match f {{ p: {t} => 1, p: {u} => 2, => 0, }}; }}; fs := [{}]; fs~ @ (p: (int, any)) -> int {{ return g(p.1); }} $]", list.join(", "));
+                    session.run_one(prop, &json!({"kind": "probe", "sig": "C12:dispatch-function-types", "text": text, "expected": format!("value [{}]", want.join(", "))}));
+                }
             }
         }
     }
